@@ -338,17 +338,21 @@ def fresh(ctx, crate, crs, tag):
         n += 1
         ok = True
         for i, t in fu:
-            lv = q.leaves(b, t["args"][0])
+            lv = {x for x in q.leaves(b, t["args"][0]) if not x.startswith("lfield:")}
             ok = ok and lv == {"field:next_id"}
         inc = False
         for bb, j, s in b.assigns():
             names = [e.get("n") for e in s["p"].get("p", []) if isinstance(e, dict) and "f" in e]
+            if not names and "*" in s["p"].get("p", []):
+                # write through a `&mut usize` that points at the counter (helper taking the counter by reference)
+                dref = b.origin({"k": "copy", "p": {"l": s["p"]["l"]}})
+                names = [e.get("n") for e in dref.get("proj", []) if isinstance(e, dict) and "f" in e][-1:]
             if names == ["next_id"]:
                 lv = q.leaves(b, s["r"]["o"]) if s["r"]["k"] == "use" else (q.leaves(b, s["r"]["a"]) | q.leaves(b, s["r"]["b"]) if s["r"]["k"] == "bin" else set())
                 d = b.origin(s["r"]["o"]) if s["r"]["k"] == "use" else {"k": "rvalue", "r": s["r"]}
                 r = d.get("r", {})
                 if d["k"] == "rvalue" and r.get("k") == "bin" and r["op"].replace("WithOverflow", "") == "Add" and r["b"].get("k") == "const" and r["b"].get("v") == 1 \
-                        and q.leaves(b, r["a"]) == {"field:next_id"}:
+                        and {x for x in q.leaves(b, r["a"]) if not x.startswith("lfield:")} == {"field:next_id"}:
                     inc = True
         ctx.ob(R, b.key, "id=next_id;next_id+=1", ok and inc, b.loc(), "the variable id is the counter value and the counter is advanced by one")
     ctx.floor(R, "VariableMap allocators", n, 2)
